@@ -126,7 +126,17 @@ func doCall(e *twig.Engine, c *sCall) {
 		}
 	case "parse":
 		var t *twig.Template
-		t, err = e.ParseTemplate("q{{ x }}{% if x %}[{{ x|upper }}]{% endif %}" + c.Name)
+		src := "q{{ x }}{% if x %}[{{ x|upper }}]{% endif %}" + c.Name
+		if c.Name == "_big" {
+			// a large template (> 4096 bytes: the other tokenizer) that prints names nobody has seen before
+			var sb strings.Builder
+			sb.WriteString(src)
+			for i := 0; i < 150; i++ {
+				fmt.Fprintf(&sb, "<i>{{ v%s_%d }}</i>{{ x }};;;;;;;;;;;;\n", c.X, i)
+			}
+			src = sb.String()
+		}
+		t, err = e.ParseTemplate(src)
 		if err == nil {
 			out, err = t.Render(ctx)
 		}
@@ -194,7 +204,7 @@ func cmdStress(args []string) {
 			case r < 13:
 				c.Op, c.Name = "load", renderNames[rnd.Intn(len(renderNames))]
 			case r < 15:
-				c.Op, c.Name = "parse", fmt.Sprintf("_%d", rnd.Intn(3))
+				c.Op, c.Name = "parse", []string{"_0", "_1", "_2", "_big", "_big"}[rnd.Intn(5)]
 			case r < 17 && versioned:
 				n := []string{"v1", "v2"}[rnd.Intn(2)]
 				verCounter[n]++
